@@ -370,6 +370,88 @@ impl BTreeTable {
 	}
 }
 
+/// Verification hooks (compiled only with `--cfg pdb_verif`): read-only views.
+#[cfg(pdb_verif)]
+pub mod verif {
+	use super::*;
+
+	/// One node as stored: separators (key, value address) in slot order up to the first
+	/// empty slot, all `ORDER + 1` child slots (raw address, 0 = none) with the decoded child.
+	#[derive(Debug, Clone)]
+	pub struct NodeDump {
+		pub address: u64,
+		pub separators: Vec<(Vec<u8>, u64)>,
+		/// separator slots holding an entry *after* the first empty slot (must be none)
+		pub stray_separators: usize,
+		pub children: Vec<(u64, Option<Box<NodeDump>>)>,
+	}
+
+	#[derive(Debug, Clone)]
+	pub struct TreeDump {
+		pub root: u64,
+		pub depth: u32,
+		pub root_node: Option<NodeDump>,
+	}
+
+	fn dump_node(
+		address: u64,
+		node: &Node,
+		tables: TablesRef,
+		log: &impl LogQuery,
+		fuel: u32,
+	) -> Result<NodeDump> {
+		let mut separators = Vec::new();
+		let mut stray = 0;
+		let mut ended = false;
+		for s in node.separators.iter() {
+			match (&s.separator, ended) {
+				(Some(s), false) => separators.push((s.key.clone(), s.value.as_u64())),
+				(Some(_), true) => stray += 1,
+				(None, _) => ended = true,
+			}
+		}
+		let mut children = Vec::new();
+		for (i, c) in node.children.iter().enumerate() {
+			match c.entry_index {
+				Some(ix) if fuel > 0 => {
+					let child = node.fetch_child(i, tables, log)?.expect("entry index is set");
+					let d = dump_node(ix.as_u64(), &child, tables, log, fuel - 1)?;
+					children.push((ix.as_u64(), Some(Box::new(d))));
+				},
+				Some(ix) => children.push((ix.as_u64(), None)),
+				None => children.push((0, None)),
+			}
+		}
+		Ok(NodeDump { address, separators, stray_separators: stray, children })
+	}
+
+	impl BTreeTable {
+		/// Dump the tree as seen through `log` (log overlay over the files).
+		pub fn verif_dump(&self, log: &impl LogQuery) -> Result<TreeDump> {
+			self.with_locked(|tables| {
+				let header = BTreeTable::btree_header(log, tables)?;
+				let root_node = if header.root == NULL_ADDRESS {
+					None
+				} else {
+					let root = BTree::fetch_root(header.root, tables, log)?;
+					Some(dump_node(header.root.as_u64(), &root, tables, log, header.depth + 2)?)
+				};
+				Ok(TreeDump { root: header.root.as_u64(), depth: header.depth, root_node })
+			})
+		}
+	}
+
+	/// `Entry::write_separator` followed by `Entry::read_separator` on the produced bytes.
+	pub fn separator_codec(key: &[u8], value: u64) -> (Vec<u8>, Result<Option<(Vec<u8>, u64)>>) {
+		let mut e = Entry::empty();
+		e.write_separator(key, Address::from_u64(value));
+		let bytes: Vec<u8> = e.encoded.inner_mut().clone();
+		let mut r = Entry::from_encoded(bytes.clone());
+		let back = r.read_separator().map(|o| o.map(|s| (s.key, s.value.as_u64())));
+		(bytes, back)
+	}
+}
+
 pub mod commit_overlay {
 	use super::*;
 	use crate::{
